@@ -30,6 +30,9 @@ def call(eng, st, f, args, kwargs):
         if isinstance(x, SStr):
             raise EngineUnsupported("len of symbolic str")
         return len(x)
+    if getattr(f, "__module__", None) == "logging" and getattr(f, "__name__", None) == "getLogger":
+        from pyvc.symex import LoggerVal
+        return LoggerVal()
     if f is bool:
         t = ops.truth(st, args[0]) if args else False
         return t if isinstance(t, bool) else norm(SBool(t))
